@@ -1,4 +1,5 @@
 import BornoModel.Eval
+import BornoModel.Lemmas.EvalInv
 /-! # C12 — objects are shared key→value maps with consistent read, write, delete, listing -/
 namespace Borno.Props.C12
 open Borno Expect
@@ -193,5 +194,44 @@ theorem literal_distinct_keys_exact {α : Type} (ps : List (Name × α)) (h : (p
       rcases hmem with hm | hm
       · exact hacc k (by simp [hk]) hm
       · simp at hm; subst hm; exact hnd.1 hk
+
+/-! ## every reachable object is well-formed: each property is listed exactly once -/
+
+/-- **no evaluation ever makes an object hold a key twice**: whatever is evaluated — any expression,
+    statement, call, loop, built-in — from a store whose objects are duplicate-free, the objects of
+    the resulting store are duplicate-free (literals with repeated keys, writes, deletes included) -/
+theorem objects_stay_wellformed (P : Platform) (f : Nat) (e : Expr) (s : Stmt) (env : Nat) (repl : Bool) (σ σ' : Store) (r : Val × Signal)
+    (hok : ObjsOk σ) :
+    (evalE P f e env repl σ = .ok r σ' → ObjsOk σ') ∧ (evalS P f s env repl σ = .ok r σ' → ObjsOk σ') := by
+  constructor
+  · intro h; have := (allSat P f).e e env repl σ; rw [h] at this; exact this.objs_nodup hok
+  · intro h; have := (allSat P f).s s env repl σ; rw [h] at this; exact this.objs_nodup hok
+
+/-- in particular in every store a program run reaches (the initial store has no objects) -/
+theorem program_objects_wellformed (P : Platform) (fuel : Nat) (prog : List Stmt) (repl : Bool) (input : List Char) (σ' : Store)
+    (h : interpret P fuel prog repl input = .ok () σ') : ObjsOk σ' := by
+  have := sat_interpretLoop P fuel prog 1 repl (initStore input)
+  unfold interpret at h
+  rw [h] at this
+  exact this.objs_nodup (by intro i ps hi; simp [initStore] at hi)
+
+/-- hence `অব্জেক্ট_কি` lists each property of a well-formed object exactly once: the listing has no
+    repetition and contains exactly the object's keys -/
+theorem keys_listing_exact (σ : Store) (r : Nat) (hok : ObjsOk σ) :
+    (objKeys σ r).Nodup ∧ ∀ k, k ∈ objKeys σ r ↔ ((objOf σ r).lookup k).isSome = true := by
+  have hnd : ((objOf σ r).map (·.1)).Nodup := Ext.objsOk_getD hok r
+  have hperm : (objKeys σ r).Perm ((objOf σ r).map (·.1)) := List.mergeSort_perm _ _
+  refine ⟨hperm.nodup_iff.mpr hnd, fun k => ?_⟩
+  rw [hperm.mem_iff]
+  generalize objOf σ r = ps
+  induction ps with
+  | nil => simp [List.lookup]
+  | cons p ps ih =>
+    obtain ⟨k', v'⟩ := p
+    by_cases hk : k = k'
+    · subst hk; simp [List.lookup]
+    · have : (k == k') = false := by simpa using hk
+      simp only [List.map_cons, List.mem_cons, hk, false_or, List.lookup, this]
+      exact ih
 
 end Borno.Props.C12
